@@ -2202,6 +2202,10 @@ class SSHConnection(SSHPacketHandler, asyncio.Protocol):
             if inspect.isawaitable(result):
                 await result
 
+        # The connection may have been closed while auth_completed() ran
+        if not self._owner:
+            return
+
         if self._acceptor:
             result = self._acceptor(self)
 
